@@ -75,7 +75,13 @@ func c02Honest(c c02Case, pd c02PD, signer int, aud string, nonce string, layout
 	for _, d := range pd.Descs {
 		cr := r.newCred(c, d.Kind, signer)
 		for i, f := range d.Fields {
-			cr.Attrs[c02Attr(d, i)] = f.credValue()
+			switch {
+			case f.Optional && f.Cred == "absent":
+			case f.Optional && f.Cred == "null":
+				cr.Attrs[c02Attr(d, i)] = nil
+			default:
+				cr.Attrs[c02Attr(d, i)] = f.credValue()
+			}
 		}
 		creds = append(creds, cr)
 	}
@@ -112,7 +118,23 @@ func (r *c02Request) expectedClaims() map[string]any {
 	out := map[string]any{}
 	for _, d := range r.PD.Descs {
 		for _, f := range d.Fields {
-			out[f.ID] = f.claimValue()
+			if !f.valueless() {
+				out[f.ID] = f.claimValue()
+			}
+		}
+	}
+	return out
+}
+
+// valuelessClaims: ids of optional fields for which the presented credential has no value (vcr/pe maps them to nil):
+// no claim value is established at issuance.
+func (r *c02Request) valuelessClaims() []string {
+	var out []string
+	for _, d := range r.PD.Descs {
+		for _, f := range d.Fields {
+			if f.valueless() {
+				out = append(out, f.ID)
+			}
 		}
 	}
 	return out
@@ -226,7 +248,7 @@ func c02ApplyPresentationDefect(c c02Case, r *c02Request, d c02Defect, aud strin
 		case 0:
 			m.Creds[k].Kind = "wrongkind"
 		case 1:
-			if len(r.PD.Descs[k].Fields) == 0 {
+			if len(r.PD.Descs[k].Fields) == 0 || r.PD.Descs[k].Fields[0].Optional {
 				m.Creds[k].Kind = "wrongkind"
 			} else {
 				delete(m.Creds[k].Attrs, c02Attr(r.PD.Descs[k], 0))
@@ -358,6 +380,12 @@ func c02ApplyPresentationDefect(c c02Case, r *c02Request, d c02Defect, aud strin
 	// --- request parameters (s2s) ---
 	case "scope_unknown":
 		r.Scope = c02Ptr([]string{"no-such-scope", ""}[d.Arg%2])
+	case "scope_near_miss":
+		v, ok := c02ScopeNearMiss(c, d.Arg)
+		if !ok {
+			return false
+		}
+		r.Scope = c02Ptr(v)
 	case "scope_other":
 		if len(c.Policy) < 2 {
 			r.Scope = c02Ptr("no-such-scope")
@@ -381,6 +409,46 @@ func c02ApplyPresentationDefect(c c02Case, r *c02Request, d c02Defect, aud strin
 		return false
 	}
 	return true
+}
+
+// c02ScopeNearMiss: a scope STRING for which the policy configures nothing (the local policy backend maps the complete
+// requested string to definitions), although it contains / resembles the configured scope the credentials are for.
+// The first entries are what shrinking converges to.
+func c02ScopeNearMiss(c c02Case, arg int) (string, bool) {
+	n := c.Policy[c.Scope].Name
+	other := "extra"
+	for i, sc := range c.Policy {
+		if i != c.Scope && !sc.Combo {
+			other = sc.Name
+		}
+	}
+	vs := []string{
+		n + " superuser",   // configured + unknown
+		n + " " + other,    // configured + configured (or + "extra")
+		" " + n,            // leading blank
+		n + " ",            // trailing blank ("a" + empty)
+		n + "\tsuperuser",  // tab separated
+		n + "\nsuperuser",  // newline separated
+		n + "   x",         // several blanks
+		"\t" + n + "\n",    // surrounded by other whitespace
+		"superuser " + n,   // configured value second
+		n + " " + n,        // repeated
+		strings.ToUpper(n), // case variants
+		strings.ToUpper(n[:1]) + n[1:],
+		n[:len(n)-1],     // proper prefix
+		n + "x",          // suffix
+		n + ",superuser", // other separators
+		n + "+superuser",
+		n + "%20superuser",
+		n + "\u00a0superuser", // no-break space
+	}
+	v := vs[arg%len(vs)]
+	for _, sc := range c.Policy {
+		if sc.Name == v {
+			return "", false // that string IS configured (Combo key): not a near miss
+		}
+	}
+	return v, true
 }
 
 // c02NearMisses: audiences that are NOT this authorization server although they look like it. (First entries are what
@@ -447,7 +515,7 @@ var c02DefectOrder = []string{
 	"foreign_definition", "unfulfilled", "forged_map",
 	"bad_vp_sig", "bad_vc_sig", "cred_revoked", "cred_expired",
 	"aud_wrong", "aud_absent", "aud_near_miss", "aud_equivalent", "aud_array_contains", "validity_long", "validity_no_exp", "validity_stale", "nonce_missing",
-	"scope_unknown", "scope_other", "param_missing", "garbage",
+	"scope_unknown", "scope_other", "scope_near_miss", "param_missing", "garbage",
 }
 
 type c02Rendered struct {
